@@ -1,6 +1,9 @@
 import LoraVerif.Model.Device
 import LoraVerif.Spec.Regional
 import LoraVerif.Lemmas.ExceptLemmas
+import LoraVerif.Props.C09
+import LoraVerif.Lemmas.Ghost
+import LoraVerif.Lemmas.MacWFStep
 /-!
 # C10 — receive windows follow the regional parameters in force when the uplink was sent
 
@@ -14,6 +17,13 @@ import LoraVerif.Lemmas.ExceptLemmas
 * `delay_spec`, `del_to_delay`: RX1 delay = negotiated delay (join: 5 s), RX2 one second later;
 * `startDelay_spec`: the front-end's timer value is delay + tx time − lead, and the u32 arithmetic
   neither overflows nor underflows when lead ≤ delay + tx time.
+* HISTORIES: `history_windows` — at every position of every history (`Model/History.lean`) of valid
+  events from a well-formed state, an uplink / join request hands the radio windows that are exactly
+  those of the channel and data rate ACTUALLY used (`selectTxChannel_paired`: RX1 on the downlink
+  frequency paired with that channel, DlChannelReq mappings included; C09's `selectTxChannel_legal`:
+  the data rate is the one of the TxConfig) under the parameters of the state just before the event
+  (`WindowsOf`: RX1DROffset, RX2 data rate and frequency, delays — join: 5 s / 6 s), and a Class C
+  reception listens with that state's RX2 parameters (`send_windows`, `join_windows`, `step_windows`).
 -/
 open Model Gen.Region Spec.Regional
 
@@ -122,6 +132,274 @@ example : (EU868Region.get_rx_datarate ._5 4 ._1).map drOf = some 1 := by decide
 example : (US915Region.get_rx_datarate ._0 3 ._1).map drOf = some 8 := by decide
 example : startDelay 1000 57 15 = .ok 1042 := by rfl
 
+
+/-- the downlink frequency PAIRED with the uplink channel the frame went out on, in plan state `rs`
+(the channel list, which channel selection does not touch): dynamic plans — the channel's own
+frequency unless a DlChannelReq gave it a separate downlink frequency; fixed plans — downlink
+channel `ch mod 8` of uplink channel `ch` -/
+def Paired (rs : RegionState) (tx : TxChannel) : Prop :=
+  match rs.plan with
+  | .dyn p => ∃ (i : Nat) (c : Channel), p.channels[i]? = some (some c) ∧ tx.frequency = c.freq ∧ tx.rx1Frequency = c.rx1Frequency
+  | .fix _ => ∃ ch f f1, (uplinkChannels rs.id)[ch]? = some f ∧ (downlinkChannels rs.id)[ch % 8]? = some f1 ∧
+      tx.frequency = f.toNat ∧ tx.rx1Frequency = f1.toNat
+
+theorem selectTxChannel_paired {σ} (g : Rng σ) (rs rs' : RegionState) (dr : DR) (frame : FrameKind) (s s' : σ) (tx : TxChannel)
+    (h : selectTxChannel g rs dr frame s = .ok (tx, rs', s')) : Paired rs tx := by
+  unfold selectTxChannel at h
+  unfold Paired
+  cases hp : rs.plan with
+  | dyn p =>
+    simp only [hp] at h ⊢
+    obtain ⟨drv, _, h⟩ := Except.bind_eq_ok h
+    cases frame with
+    | join =>
+      simp only at h
+      obtain ⟨⟨idx, s1⟩, _, h⟩ := Except.bind_eq_ok h
+      simp only at h
+      split at h
+      · rename_i c hc
+        obtain ⟨d, _, h⟩ := Except.bind_eq_ok h
+        cases Except.pure_eq_ok h
+        exact ⟨idx, c, hc, rfl, rfl⟩
+      · cases h
+    | data =>
+      simp only at h
+      obtain ⟨ua, _, h⟩ := Except.bind_eq_ok h
+      obtain ⟨p', hp', h⟩ := Except.bind_eq_ok h
+      obtain ⟨⟨c, s1⟩, hloop, h⟩ := Except.bind_eq_ok h
+      obtain ⟨d, _, h⟩ := Except.bind_eq_ok h
+      cases Except.pure_eq_ok h
+      have hch : p'.channels = p.channels := by
+        cases ua
+        · simp only [Bool.false_eq_true, if_false] at hp'
+          obtain ⟨m, _, hp'⟩ := Except.bind_eq_ok hp'
+          cases Except.pure_eq_ok hp'; rfl
+        · simp only [if_true] at hp'
+          cases Except.pure_eq_ok hp'; rfl
+      obtain ⟨i, hu⟩ := C09.dynDataLoop_sound g p' loopFuel s c s1 hloop
+      obtain ⟨_, hc⟩ := C09.usable_spec p' i c hu
+      rw [hch] at hc
+      exact ⟨i, c, hc, rfl, rfl⟩
+  | fix p =>
+    simp only [hp] at h ⊢
+    obtain ⟨⟨dr', channel, jc, mask, s1⟩, _, h⟩ := Except.bind_eq_ok h
+    simp only at h
+    obtain ⟨oi, _, h⟩ := Except.bind_eq_ok h
+    obtain ⟨d, _, h⟩ := Except.bind_eq_ok h
+    split at h
+    · rename_i f f1 hf hf1
+      cases Except.pure_eq_ok h
+      exact ⟨channel, f, f1, hf, hf1, rfl, rfl⟩
+    · cases h
+
+
+/-- the RX2 frequency in force in state `m`: the negotiated one, else the regional default -/
+def rx2Freq (m : MacState) : Nat := match m.cfg.rx2Frequency with | some f => f | none => rx2Frequency m.region.id
+
+/-- the RX2 data rate in force in state `m` for an uplink sent at `txDr` -/
+def rx2Dr (m : MacState) (txDr : DR) : M DR :=
+  match m.cfg.rx2DataRate with
+  | some d => drOfNat d
+  | none => rxDatarate m.region.id txDr m.cfg.rx1DrOffset Window._2
+
+/-- **the receive windows of a frame sent on channel `tx`, under the parameters of state `m`** (the
+state in which the frame was built): the TxConfig is that channel at its data rate; RX1 is on the
+downlink frequency paired with that channel, at the regional table's rate for (data rate actually
+used, RX1DROffset of `m`); RX2 on `m`'s negotiated-or-default frequency and data rate; both are LoRa
+data rates the region defines -/
+structure WindowsOf (m : MacState) (tx : TxChannel) (t : TxOut) : Prop where
+  rf : t.rf = rfOf tx.datarate tx.frequency
+  actual : getDatarate m.region.id tx.dr.toInt.toNat = some tx.datarate
+  paired : Paired m.region tx
+  rx1Frq : t.rx1.frequency = tx.rx1Frequency
+  rx2Frq : t.rx2.frequency = rx2Freq m
+  rx1Rate : ∃ d1, rxDatarate m.region.id tx.dr m.cfg.rx1DrOffset Window._1 = .ok d1 ∧
+    buildRfConfig m tx.rx1Frequency d1 tx.dr = .ok t.rx1
+  rx2Rate : ∃ d2, rx2Dr m tx.dr = .ok d2 ∧ buildRfConfig m (rx2Freq m) d2 tx.dr = .ok t.rx2
+  defined1 : ∃ d k, t.rx1 = rfOf d tx.rx1Frequency ∧ getDatarate m.region.id k = some d
+  defined2 : ∃ d k, t.rx2 = rfOf d (rx2Freq m) ∧ getDatarate m.region.id k = some d
+
+theorem buildRfConfig_congr (m m1 : MacState) (hc : m1.cfg = m.cfg) (hr : m1.region.id = m.region.id) (f : Nat) (d t : DR) :
+    buildRfConfig m1 f d t = buildRfConfig m f d t := by
+  unfold buildRfConfig; rw [hc, hr]
+
+theorem rxWindows_congr (m m1 : MacState) (hc : m1.cfg = m.cfg) (hr : m1.region.id = m.region.id) (tx : TxChannel) :
+    rxWindows m1 tx = rxWindows m tx := by
+  unfold rxWindows rx2RfConfig
+  simp only [buildRfConfig_congr m m1 hc hr, hc, hr]
+
+theorem windowsOf_of {m : MacState} {tx : TxChannel} {t : TxOut} (hrf : t.rf = rfOf tx.datarate tx.frequency)
+    (hact : getDatarate m.region.id tx.dr.toInt.toNat = some tx.datarate) (hp : Paired m.region tx)
+    (hw : rxWindows m tx = .ok (t.rx1, t.rx2)) : WindowsOf m tx t := by
+  obtain ⟨h1, h2, ⟨d1, hd1, hb1⟩, ⟨d2, hd2, hb2⟩⟩ := rxWindows_spec m tx t.rx1 t.rx2 hw
+  obtain ⟨dd1, hdd1, k1, hk1⟩ := window_dr_defined m _ _ _ _ hb1
+  obtain ⟨dd2, hdd2, k2, hk2⟩ := window_dr_defined m _ _ _ _ hb2
+  exact ⟨hrf, hact, hp, h1, h2, ⟨d1, hd1, hb1⟩, ⟨d2, hd2, hb2⟩, ⟨dd1, k1, hdd1, hk1⟩, ⟨dd2, k2, hdd2, hk2⟩⟩
+
+/-- **a data uplink**: its windows are those of the channel and data rate actually used, under the
+parameters in force BEFORE `send` (which `send` does not change: the delays the front-end then reads
+are the negotiated RX1 delay and that plus one second) -/
+theorem send_windows {σ} (g : Rng σ) (m m1 : MacState) (hwf : MacWF m) (data : List Nat) (fport : Nat) (conf : Bool)
+    (rs rs' : σ) (so : SendOut) (h : macSend g m data fport conf rs = .ok (some so, m1, rs')) :
+    ∃ tx, WindowsOf m tx so.tx ∧ macRxDelay m1 false false = m.cfg.rx1Delay ∧ macRxDelay m1 false true = m.cfg.rx1Delay + 1000 := by
+  cases hst : m.st with
+  | joined s =>
+    obtain ⟨dr, tx, region', pw, r1, r2, _, _, hsel, hm1, hrw, ho⟩ := macSend_joined g m s hst data fport conf rs rs' _ m1 h
+    simp only [Option.some.injEq] at ho
+    subst ho
+    obtain ⟨hid, hg, _, _⟩ := C09.selectTxChannel_legal g m.region region' dr .data rs rs' tx hwf.region hsel
+    have hc : m1.cfg = m.cfg := by rw [hm1]
+    have hr : m1.region.id = m.region.id := by rw [hm1]; exact hid
+    rw [rxWindows_congr m m1 hc hr] at hrw
+    refine ⟨tx, windowsOf_of rfl hg (selectTxChannel_paired g m.region region' dr .data rs rs' tx hsel) hrw, ?_, ?_⟩
+    · simp only [macRxDelay, hc]
+    · simp only [macRxDelay, hc]
+  | otaa o => rw [macSend_notJoined g m (fun s hs => by rw [hst] at hs; cases hs)] at h; cases h
+  | unjoined => rw [macSend_notJoined g m (fun s hs => by rw [hst] at hs; cases hs)] at h; cases h
+
+/-- **a join request**: the same, with the fixed join delays 5 s / 6 s -/
+theorem join_windows {σ} (g : Rng σ) (m m1 : MacState) (hwf : MacWF m) (rs rs' : σ) (jo : JoinOut)
+    (h : macJoinOtaa g m rs = .ok (jo, m1, rs')) :
+    ∃ tx, WindowsOf m tx jo.tx ∧ macRxDelay m1 true false = 5000 ∧ macRxDelay m1 true true = 6000 := by
+  obtain ⟨dr, tx, region', pw, r1, r2, _, hsel, hm1, hrw, ho⟩ := macJoinOtaa_ok g m rs rs' jo m1 h
+  subst ho
+  obtain ⟨hid, hg, _, _⟩ := C09.selectTxChannel_legal g m.region region' dr .join _ rs' tx hwf.region hsel
+  have hc : m1.cfg = m.cfg := by rw [hm1]
+  have hr : m1.region.id = m.region.id := by rw [hm1]; exact hid
+  rw [rxWindows_congr m m1 hc hr] at hrw
+  exact ⟨tx, windowsOf_of rfl hg (selectTxChannel_paired g m.region region' dr .join _ rs' tx hsel) hrw,
+    (delay_spec m1).2.2.1, (delay_spec m1).2.2.2⟩
+
+/-- what the event at a position of a history must have handed to the radio, `mi` being the state
+before it -/
+def StepWindows {σ} (g : Rng σ) (mi : MacState) (rsi : σ) (ev : Ev) (out : Out) : Prop :=
+  match ev, out with
+  | .uplink data fport conf _ _ _ _ _, .up so _ _ =>
+    ∃ tx m1 rs1, macSend g mi data fport conf rsi = .ok (some so, m1, rs1) ∧ WindowsOf mi tx so.tx ∧
+      macRxDelay m1 false false = mi.cfg.rx1Delay ∧ macRxDelay m1 false true = mi.cfg.rx1Delay + 1000
+  | .joinOtaa _ _ _ _ _, .join jo _ =>
+    ∃ tx m1 rs1, macJoinOtaa g mi rsi = .ok (jo, m1, rs1) ∧ WindowsOf mi tx jo.tx ∧
+      macRxDelay m1 true false = 5000 ∧ macRxDelay m1 true true = 6000
+  | .rxc _ _ _, .rxc rf _ =>
+    ∃ txDr d2, drOfNat mi.cfg.dataRate = .ok txDr ∧ rx2Dr mi txDr = .ok d2 ∧ buildRfConfig mi (rx2Freq mi) d2 txDr = .ok rf ∧
+      rf.frequency = rx2Freq mi
+  | _, _ => True
+
+theorem step_windows {σ} (g : Rng σ) (m m' : MacState) (rs rs' : σ) (ev : Ev) (out : Out) (hwf : MacWF m)
+    (h : step g (m, rs) ev = .ok ((m', rs'), out)) : StepWindows g m rs ev out := by
+  cases ev with
+  | joinAbp da nwk app => simp only [step, pure, Except.pure, Except.ok.injEq, Prod.mk.injEq] at h; rw [← h.2]; trivial
+  | setAdr on => simp only [step, pure, Except.pure, Except.ok.injEq, Prod.mk.injEq] at h; rw [← h.2]; trivial
+  | setDr dr => simp only [step, pure, Except.pure, Except.ok.injEq, Prod.mk.injEq] at h; rw [← h.2]; trivial
+  | rxc v snr mp =>
+    unfold step at h
+    simp only at h
+    obtain ⟨rf, hrf, h⟩ := Except.bind_eq_ok h
+    obtain ⟨⟨o, m2⟩, _, h⟩ := Except.bind_eq_ok h
+    simp only [pure, Except.pure, Except.ok.injEq, Prod.mk.injEq] at h
+    obtain ⟨_, rfl⟩ := h
+    unfold macRxcConfig at hrf
+    obtain ⟨txDr, htx, hrf⟩ := Except.bind_eq_ok hrf
+    unfold rx2RfConfig at hrf
+    obtain ⟨d2, hd2, hrf⟩ := Except.bind_eq_ok hrf
+    obtain ⟨dd, hdd, _⟩ := window_dr_defined m _ _ _ _ hrf
+    exact ⟨txDr, d2, htx, hd2, hrf, by rw [hdd]; rfl⟩
+  | joinOtaa fault rx1 rx2 mp1 mp2 =>
+    obtain ⟨jo, m1, o, hj, _, _, ht⟩ := step_joinOtaa_inv g m m' rs rs' fault rx1 rx2 mp1 mp2 out h
+    obtain ⟨tx, hw, d1, d2⟩ := join_windows g m m1 hwf rs rs' jo hj
+    have : ∃ resp, out = .join jo resp := by
+      cases hjr : joinRes fault rx1 rx2 with
+      | some j => simp only [hjr] at ht; exact ⟨_, ht.2⟩
+      | none => simp only [hjr] at ht; exact ⟨_, ht.2⟩
+    obtain ⟨resp, rfl⟩ := this
+    exact ⟨tx, m1, rs', hj, hw, d1, d2⟩
+  | uplink data fport conf fault rx1 rx2 mp1 mp2 =>
+    unfold step at h
+    simp only at h
+    obtain ⟨⟨o, m1, rs1⟩, hsend, h⟩ := Except.bind_eq_ok h
+    cases o with
+    | none =>
+      simp only [pure, Except.pure, Except.ok.injEq, Prod.mk.injEq] at h
+      rw [← h.2]; trivial
+    | some so =>
+      obtain ⟨tx, hw, d1, d2⟩ := send_windows g m m1 hwf data fport conf rs rs1 so hsend
+      simp only at h
+      cases fault with
+      | none =>
+        simp only at h
+        obtain ⟨⟨r, dl, m2⟩, _, h⟩ := Except.bind_eq_ok h
+        simp only [pure, Except.pure, Except.ok.injEq, Prod.mk.injEq] at h
+        rw [← h.2]
+        exact ⟨tx, m1, rs1, hsend, hw, d1, d2⟩
+      | some k =>
+        simp only at h
+        obtain ⟨m2, _, h⟩ := Except.bind_eq_ok h
+        simp only [pure, Except.pure, Except.ok.injEq, Prod.mk.injEq] at h
+        rw [← h.2]
+        exact ⟨tx, m1, rs1, hsend, hw, d1, d2⟩
+
+/-- every state along a chain of valid events from a well-formed state is well-formed -/
+theorem chain_wf {σ} (g : Rng σ) (ms ms' : MacState × σ) (t : List (Ev × Out)) (hwf : MacWF ms.1)
+    (hv : ∀ x ∈ t, validEv ms.1.region.id x.1 = true) (h : Chain g ms t ms') :
+    MacWF ms'.1 ∧ ms'.1.region.id = ms.1.region.id := by
+  induction t generalizing ms with
+  | nil => simp only [Chain] at h; subst h; exact ⟨hwf, rfl⟩
+  | cons x rest ih =>
+    obtain ⟨ev, out⟩ := x
+    simp only [Chain] at h
+    obtain ⟨⟨m1, s1⟩, hs, hrest⟩ := h
+    have hk : Keeps ms.1 m1 := (step_safe g ms.1 ms.2 ev hwf (hv (ev, out) List.mem_cons_self)).elim hs
+    obtain ⟨h1, h2⟩ := ih (m1, s1) hk.1 (fun x hx => by rw [hk.2.1]; exact hv x (List.mem_cons_of_mem _ hx)) hrest
+    exact ⟨h1, by rw [h2, hk.2.1]⟩
+
+/-- **C10 over every history.**  Take any history of valid events from a well-formed state, any
+random stream, and ANY position `i` of it.  With `mi` the state the history reached just before
+event `i`: an uplink hands the radio the TxConfig of the channel selected and RX1/RX2 configurations
+that are exactly those of that channel and data rate under `mi`'s parameters — RX1 on the paired
+downlink frequency (DlChannelReq mappings included) at the regional table's rate for (rate actually
+used, `mi`'s RX1DROffset), RX2 on `mi`'s negotiated-or-default frequency and rate, delays `mi`'s RX1
+delay and + 1 s (join: 5 s / 6 s) — whatever MAC commands arrive later; a Class C reception listens
+with `mi`'s RX2 parameters. -/
+theorem history_windows {σ} (g : Rng σ) (m : MacState) (rs : σ) (hwf : MacWF m) (evs : List Ev)
+    (hv : ∀ ev ∈ evs, validEv m.region.id ev = true) (ms' : MacState × σ) (outs : List Out)
+    (h : run g (m, rs) evs = .ok (ms', outs)) (i : Nat) (ev : Ev) (out : Out)
+    (hi : (evs.zip outs)[i]? = some (ev, out)) :
+    ∃ mi rsi, Chain g (m, rs) ((evs.zip outs).take i) (mi, rsi) ∧ MacWF mi ∧ mi.region.id = m.region.id ∧
+      StepWindows g mi rsi ev out := by
+  have hc := run_chain g (m, rs) ms' evs outs h
+  obtain ⟨⟨mi, rsi⟩, ⟨mi', rsi'⟩, h1, hstep, _⟩ := chain_at g (m, rs) ms' (evs.zip outs) i ev out hc hi
+  obtain ⟨hwfi, hidi⟩ := chain_wf g (m, rs) (mi, rsi) _ hwf
+    (fun x hx => hv x.1 (List.of_mem_zip (List.mem_of_mem_take hx)).1) h1
+  exact ⟨mi, rsi, h1, hwfi, hidi, step_windows g mi mi' rsi rsi' ev out hwfi hstep⟩
+
+
+/-! non-vacuity of the history theorem: DlChannelReq for channels 0–2 accepted in RX1 of the first
+uplink, RXParamSetupReq (RX2 → DR3) + RXTimingSetupReq (3 s) accepted in RX2 of the second.  The
+second uplink already opens RX1 on the new downlink frequency; its RX2 — handed out before the
+RXParamSetupReq arrived — is still the default SF12, the third uplink's RX2 is SF9. -/
+def lcg : Rng Nat := fun x => ((x * 1103515245 + 12345) / 65536, x * 1103515245 + 12345)
+
+def dl (w : Nat) (fopts : List Nat) : Option (RxView × Int) :=
+  some (.data { len := 30, confirmed := false, fcnt16 := w, micFcnt := some w, fopts := fopts, fport := some 1, payload := [1] }, 5)
+
+def demoHistory : List Ev :=
+  [ .joinAbp 7 1 2,
+    .uplink [1] 1 false none (dl 1 [0x0A, 0, 0xD2, 0xAD, 0x84, 0x0A, 1, 0xD2, 0xAD, 0x84, 0x0A, 2, 0xD2, 0xAD, 0x84]) none 51 51,
+    .uplink [2] 1 false none none (dl 2 [0x05, 0x23, 0xD2, 0xAD, 0x84, 0x08, 0x03]) 51 51,
+    .uplink [3] 1 false none none none 51 51 ]
+
+def winOf (o : Out) : List Int :=
+  match o with
+  | .up so _ _ => [so.tx.rf.frequency, so.tx.rx1.frequency, so.tx.rx1.sf, so.tx.rx2.frequency, so.tx.rx2.sf]
+  | _ => []
+
+example : ∀ ev ∈ demoHistory, validEv .EU868 ev = true := by decide
+example : MacWF (MacState.init (RegionState.init .EU868) 14 0) := by decide
+example : (run lcg (MacState.init (RegionState.init .EU868) 14 0, 1) demoHistory).toOption.map
+      (fun r => (r.2.map winOf, r.1.1.cfg.rx1Delay)) =
+    some ([[], [868300000, 868300000, 12, 869525000, 12], [868500000, 869525000, 12, 869525000, 12],
+           [868300000, 869525000, 12, 869525000, 9]], 3000) := by decide +kernel
+
 end C10
 
 #print axioms C10.rx1_eu868
@@ -137,3 +415,9 @@ end C10
 #print axioms C10.rxWindows_spec
 #print axioms C10.window_dr_defined
 #print axioms C10.startDelay_spec
+#print axioms C10.selectTxChannel_paired
+#print axioms C10.send_windows
+#print axioms C10.join_windows
+#print axioms C10.step_windows
+#print axioms C10.chain_wf
+#print axioms C10.history_windows
